@@ -31,7 +31,9 @@ PROP = "C18"
 LEVEL = "exploration"
 RULE = ("schedules over n worker processes (2-4 quick, up to 16 thorough) that each load the same not-yet-compiled "
         "plugin against one cache directory: Hypothesis draws the order in which workers advance through their block "
-        "points {S, W0, W1, W2, P} and an optional SIGKILL at {W0, W1, W2, P} followed by a fresh worker; all "
+        "points {S, W0, W1, W2, P} and an optional SIGKILL (of the whole worker or of its compiler only) at {W0, W1, W2, P} "
+        "followed by a fresh worker; in a quarter of the kill-free schedules the workers are forked from one parent "
+        "that has already imported sasmodels; all "
         "interleavings of two workers' block points are enumerated exhaustively. Non-trivial: a second worker's cache "
         "lookup happens while another worker's compiler is between W0 and exit, or the schedule contains a kill at "
         "W1/W2; distinct by digest of the schedule.")
@@ -71,6 +73,7 @@ class Run(object):
             fh.write(PLUGIN)
         self.procs, self.state, self.released, self.events = {}, {}, {}, []
         self.cc_killed = set()
+        self.forked = set()
 
     free_run = False
 
@@ -91,10 +94,37 @@ class Run(object):
         self.released[wid] = set()
         self.state[wid] = self.wait_next(wid)
 
+    def spawn_forked(self, n):
+        """One parent that imports sasmodels and then forks n workers "p.0" .. "p.<n-1>"."""
+        os.environ.pop("VERIF_FREE_RUN", None)
+        envd = dict(os.environ, VERIF_CTL=self.ctl, VERIF_WID="p", VERIF_FORK=str(n), SAS_DLL_PATH=self.dll,
+                    CC="%s %s" % (sys.executable, os.path.join(env.VERIF_ROOT, "vp", "c18_fakecc.py")),
+                    PYTHONPATH=env.VERIF_ROOT, PYTHONHASHSEED="0", TMPDIR=self.base)
+        envd.pop("SAS_COMPILER", None)
+        out = os.path.join(self.base, "out_p.json")
+        log = open(os.path.join(self.base, "log_p.txt"), "w")
+        p = subprocess.Popen([sys.executable, "-m", "vp.c18_worker", self.plugin, out], cwd=env.VERIF_ROOT,
+                             env=envd, stdout=log, stderr=subprocess.STDOUT, start_new_session=True)
+        self.procs["p"] = p
+        self.released["p"] = set()
+        self.wait_next("p")                       # parent at its own start line
+        self.released["p"].add("S")
+        open(os.path.join(self.ctl, "go_p_S"), "w").close()
+        wids = ["p.%d" % k for k in range(n)]
+        for wid in wids:
+            self.forked.add(wid)
+            self.procs[wid] = p
+            self.released[wid] = set()
+            self.state[wid] = self.wait_next(wid)
+        return wids
+
     def wait_next(self, wid, timeout=60.0):
         t0 = time.time()
         p = self.procs[wid]
         while True:
+            if wid in self.forked and os.path.exists(os.path.join(self.ctl, "at_%s_X" % wid)):
+                self.events.append((wid, "exit"))
+                return "done"
             for tag in TAGS:
                 if tag not in self.released[wid] and os.path.exists(os.path.join(self.ctl, "at_%s_%s" % (wid, tag))):
                     self.events.append((wid, tag))
@@ -163,7 +193,10 @@ def schedules(draw, nmax):
         # the whole worker (process group) dies, or only its compiler does and the worker carries on
         if kill["at"] != "P" and draw(st.booleans()):
             kill["target"] = "compiler"
-    return {"n": n, "schedule": sched, "kill": kill}
+    case = {"n": n, "schedule": sched, "kill": kill}
+    if kill is None and draw(st.integers(0, 3)) == 0:
+        case["forked"] = True        # the workers are forked from one parent that has already imported sasmodels
+    return case
 
 
 @st.composite
@@ -182,8 +215,13 @@ def check_schedule(case, rec):
     if run.free_run:
         rec.cls("free-run")
     try:
-        for w in range(n):
-            run.spawn(w)
+        wids = list(range(n))
+        if case.get("forked"):
+            rec.cls("workers-forked-from-one-parent")
+            wids = run.spawn_forked(n)
+        else:
+            for w in range(n):
+                run.spawn(w)
         fresh = None
         if run.free_run:
             # no block points after the start line: all workers are released together with staggered
@@ -205,7 +243,7 @@ def check_schedule(case, rec):
                 return "f"
             return None
         for w in ([] if run.free_run else case["schedule"]):
-            run.advance(w)
+            run.advance(wids[w])
             fresh = fresh or maybe_kill(w)
         if kill and fresh is None and not run.free_run:
             # the drawn schedule ended before the victim reached its crash point: walk it there
@@ -216,6 +254,11 @@ def check_schedule(case, rec):
                 run.advance(w)
             fresh = maybe_kill(w)
         run.drain()
+        if run.forked:
+            try:
+                run.procs["p"].wait(timeout=60)     # the parent records its children's exit codes, then exits
+            except subprocess.TimeoutExpired:
+                raise Timeout("forking parent did not exit")
     except Timeout as exc:
         rec.cls("timeout-inconclusive")
         run.cleanup()
@@ -249,18 +292,25 @@ def check_schedule(case, rec):
         tag = "n=%d%s" % (min(n, 3), ":kill-" + kill["at"] if killed else "")
         dllpath = None
         for wid, p in run.procs.items():
+            if wid == "p":
+                continue                      # the forking parent itself builds nothing
             outp = os.path.join(base, "out_%s.json" % wid)
+            if wid in run.forked:
+                outp = os.path.join(base, "out_p.json.%s" % wid.split(".")[1])
             res = json.load(open(outp)) if os.path.exists(outp) else {}
             dllpath = dllpath or res.get("dllpath")
             if run.state[wid] == "killed":
                 continue
             rc = p.returncode
+            if wid in run.forked:
+                ex = os.path.join(run.ctl, "exit_%s" % wid)
+                rc = int(open(ex).read()) if os.path.exists(ex) else None
             who = "fresh-after-kill" if wid == "f" else "worker"
             if wid in run.cc_killed and rc == 3 and "error" in res and "result" not in res:
                 rec.cls("compiler-killed:worker-reports-error")     # a clean refusal is the right answer
                 continue
             if rc != 0 or "result" not in res:
-                log = open(os.path.join(base, "log_%s.txt" % wid)).read()[-300:]
+                log = open(os.path.join(base, "log_%s.txt" % ("p" if wid in run.forked else wid))).read()[-300:]
                 rec.fail("%s-failed:%s" % (who, tag), "worker %s exit %s: %s %s (events %r)"
                          % (wid, rc, res.get("error", ""), log.replace("\n", " "), run.events))
                 continue
@@ -270,6 +320,8 @@ def check_schedule(case, rec):
         seen = set()
         for wid in run.procs:
             outp = os.path.join(base, "out_%s.json" % wid)
+            if wid in run.forked:
+                outp = os.path.join(base, "out_p.json.%s" % wid.split(".")[1])
             if os.path.exists(outp):
                 res = json.load(open(outp))
                 if "result" in res:
@@ -375,8 +427,10 @@ def run_shard(ctx, spec):
     mine = orders[spec["k"]::spec["n"]]
     if quick:
         mine = mine[:4]
-    for bits in mine:
+    for j, bits in enumerate(mine):
         ctx.run_case("schedule", {"n": 2, "schedule": list(bits), "kill": None})
+        if j < 2 or not quick:
+            ctx.run_case("schedule", {"n": 2, "schedule": list(bits), "kill": None, "forked": True})
     ctx.extra["exhaustive_two_worker_orders"] = len(orders) if not quick else 0
     # kill points x who is ahead
     kills = [(at, pre, tgt) for tgt in ("worker", "compiler") for at in ("W0", "W1", "W2", "P")
